@@ -1560,3 +1560,93 @@ def scalarise_byte_buffers(fn):
     out = R().visit(out)
     ast.fix_missing_locations(out)
     return out
+
+
+def desugar_translating_with(fn, world, modname):
+    """`with K(): BODY` where K is a class of the module whose __enter__
+    only returns and whose __exit__ has the form
+
+        if exc_type is not None and issubclass(exc_type, E): raise X
+        return False
+
+    is `try: BODY / except E: raise X` (an exception-translating context
+    manager).  Anything else about K leaves the statement alone.  Returns fn
+    or a rewritten copy."""
+    from .inline import acopy
+
+    def translating(call):
+        if not (isinstance(call, ast.Call) and not call.args and
+                not call.keywords and isinstance(call.func, ast.Name)):
+            return None
+        b = world.lookup(modname, call.func.id) if world is not None \
+            else None
+        k = getattr(b, "value", None) if b is not None and getattr(
+            b, "kind", None) == "class" else None
+        if k is None or "__exit__" not in k.methods or \
+                "__enter__" not in k.methods:
+            return None
+        if any(isinstance(x, type(k)) for x in k.mro[1:]
+               if hasattr(x, "methods") and (
+                   "__exit__" in x.methods or "__enter__" in x.methods)):
+            return None
+        en = [s_ for s_ in k.methods["__enter__"][1].body if not (
+            isinstance(s_, ast.Expr) and isinstance(s_.value, ast.Constant))]
+        if not (len(en) == 1 and isinstance(en[0], ast.Return)) and en:
+            return None
+        ex = k.methods["__exit__"][1]
+        ps = [a.arg for a in ex.args.args]
+        if len(ps) != 4:
+            return None
+        body = [s_ for s_ in ex.body if not (
+            isinstance(s_, ast.Expr) and isinstance(s_.value, ast.Constant))]
+        if not (1 <= len(body) <= 2 and isinstance(body[0], ast.If) and
+                not body[0].orelse and len(body[0].body) == 1 and
+                isinstance(body[0].body[0], ast.Raise)):
+            return None
+        if len(body) == 2 and not (isinstance(body[1], ast.Return) and (
+                body[1].value is None or (isinstance(
+                    body[1].value, ast.Constant) and not
+                    body[1].value.value))):
+            return None
+        t = body[0].test
+        conj = t.values if isinstance(t, ast.BoolOp) and isinstance(
+            t.op, ast.And) else [t]
+        E = None
+        for c_ in conj:
+            if ast.unparse(c_) in ("%s is not None" % ps[1], ps[1]):
+                continue
+            if isinstance(c_, ast.Call) and ast.unparse(c_.func) == \
+                    "issubclass" and len(c_.args) == 2 and ast.unparse(
+                        c_.args[0]) == ps[1] and E is None:
+                E = c_.args[1]
+                continue
+            return None
+        if E is None:
+            return None
+        r = body[0].body[0]
+        if any(isinstance(x, ast.Name) and x.id in ps
+               for x in ast.walk(r)):
+            return None
+        return E, r
+    found = [n for n in _walk_no_nested(fn) if isinstance(n, ast.With) and
+             len(n.items) == 1 and n.items[0].optional_vars is None and
+             translating(n.items[0].context_expr) is not None]
+    if not found:
+        return fn
+    out = acopy(fn)
+
+    class R(ast.NodeTransformer):
+        def visit_With(self, n):
+            self.generic_visit(n)
+            if len(n.items) == 1 and n.items[0].optional_vars is None:
+                tr = translating(n.items[0].context_expr)
+                if tr is not None:
+                    E, r = tr
+                    t = ast.Try(body=n.body, handlers=[ast.ExceptHandler(
+                        type=acopy(E), name=None, body=[acopy(r)])],
+                        orelse=[], finalbody=[])
+                    return ast.copy_location(t, n)
+            return n
+    out = R().visit(out)
+    ast.fix_missing_locations(out)
+    return out
